@@ -1,4 +1,5 @@
 """Independence rules (C19): no process-wide state, fresh per-store resources, handles stay home."""
+import re
 from mirq.prov import subterms, term_str, strip_wrap, strip_clone
 from mirq.report import short, AnchorMissing
 
@@ -248,4 +249,38 @@ def in5_shared_callbacks_never_skip_on_contention(ctx, rep):
             rep.ok(R, "waits-for-own-locks:" + nm, "", "no try_lock/try_read/try_write in the %d bodies reachable from %s's callback methods" % (len(reach), a["path"]))
         for s in ss:
             rep.bad(R, "waits-for-own-locks:%s:%s" % (nm, short(s.body.path)), s.where, "%s in a callback of the exported type %s: when two stores share the object, one store's call is skipped or altered while the other is inside" % (s.ck.split("::")[-1], a["path"]))
+    rep.floor(R, "exported callback types", n, 2)
+
+
+# interior-mutable state that an exported callback type may own, with the reason (confirmed by
+# reading): everything else makes two stores that share the object interact through it
+SHARED_STATE_ALLOWED = {
+    ("SelectorSubscriber", r"^std::sync::Mutex<std::option::Option<\w+>>$"): "the selector's memo of the last delivered value is the type's documented function (C16); it is per object by design",
+}
+
+
+def in6_shareable_callbacks_own_no_new_shared_state(ctx, rep):
+    """exported callback types (which users may register with several stores) own no
+    interior-mutable state beyond the confirmed table: a lock or cell inside such an object is a
+    channel between the stores that share it (stalls, poisoning, cross-talk)"""
+    R = "IN6"
+    n = 0
+    for a in ctx.prog.facts.adts.values():
+        if a.get("vis") != "Public":
+            continue
+        roots = [b for b in ctx.prog.bodies if (b.j.get("impl_adt") or "") == a["path"] and (b.j.get("impl_trait") or "").split("::")[-1].split("<")[0] in CALLBACK_TRAITS]
+        if not roots:
+            continue
+        n += 1
+        nm = a["path"].split("::")[-1]
+        bad = []
+        for v in a["variants"]:
+            for f in v["fields"]:
+                ty = f["ty"]
+                if any(m in ty for m in ("Mutex<", "RwLock<", "Cell<", "atomic::Atomic", "Condvar", "Once")):
+                    ok = any(nm == k[0] and re.match(k[1], ty) for k in SHARED_STATE_ALLOWED)
+                    if not ok:
+                        bad.append((f["name"], ty))
+        rep.check(not bad, R, "no-new-shared-state:" + nm, "", "%s owns no interior-mutable state outside the confirmed table" % a["path"],
+                  "the exported callback type %s owns interior-mutable state %s: two stores that share the object now interact through it" % (a["path"], bad))
     rep.floor(R, "exported callback types", n, 2)
